@@ -29,6 +29,7 @@ def serialiser_total(ctx, rule='C05.serialiser-total'):
         ser, txalloc = ctx.need('node-serialiser', 'tx-alloc-role')
     except AnchorError as e:
         return [unresolved(rule, str(e))]
+    ser, txalloc = ctx.A.xf(ser), ctx.A.xf(txalloc)       # module-private helpers (write_branch_elements ...) folded in
     for adt in ('LeafElement', 'BranchElement'):
         want = {f['name'] for f in F.adt_fields(adt) or []}
         got = {s['p']['pr'][-1]['name'] for bb, si, s in _all_stores(ser, adt) if s['p']['pr'][-1]['k'] == 'field'}
@@ -76,6 +77,7 @@ def reader_writer_tables(ctx, rule='C05.reader-writer-tables'):
     F = ctx.facts
     try:
         (ser,) = ctx.need('node-serialiser')
+        ser = ctx.A.xf(ser)
     except AnchorError as e:
         return [unresolved(rule, str(e))]
     n = 0
@@ -272,6 +274,7 @@ def page_kinds(ctx, rule='C05.page-kinds'):
     F = ctx.facts
     try:
         chk, ser = ctx.need('check-role', 'node-serialiser')
+        ser = ctx.A.xf(ser)
     except AnchorError as e:
         return [unresolved(rule, str(e))]
     meta_kind = F.const_val('Page::TYPE_META')
